@@ -187,8 +187,15 @@ ReplyRd(a) ==
   [b |-> BReply(a),
    x |-> IF HasX(a.t) THEN [i \in 1..Len(ks) |-> XReply(a, ks[i])] ELSE <<>>]
 
+(* A whole string that is refused only because of the caller's limit: the   *)
+(* refusal is a decision on the announced length, taken by the buffer       *)
+(* reader and by every stream reader at the same place.  What it leaves     *)
+(* consumed is not specified (the wire format is not), but reading goes on  *)
+(* from there and the readers must go on agreeing: see LStep.               *)
+LimRef(a) == IF AtEnd THEN FALSE ELSE Fits /\ Over(a)
+
 DoRd(a) ==
-  /\ Known(a)
+  /\ Known(a) /\ ~LimRef(a)
   /\ IF BReply(a).ok
      THEN /\ hd' = hd + 1 /\ off' = off + HeadIt.n /\ got' = Append(got, HeadIt.tok)
           /\ UNCHANGED phase
@@ -210,6 +217,18 @@ UOK(a, r) ==
        /\ \A i \in 1..Len(r.x) : SameAnswer(r.x[i], r.b)
        /\ r.b.ok => (r.b.rem >= 0 /\ r.b.rem <= Left)
        /\ (Left = 0 /\ (a.t = "raw" => a.n >= 1)) => ~r.b.ok      \* no value out of no bytes
+
+LStep(a, r) ==
+  /\ Known(a) /\ LimRef(a)
+  /\ NoPanic(r) /\ ~r.b.ok
+  /\ Len(r.x) = Len(ks) /\ \A i \in 1..Len(r.x) : ~r.x[i].ok
+  /\ r.b.rem >= Left - HeadIt.n /\ r.b.rem <= Left          \* somewhere inside the refused item
+  /\ off' = avail - r.b.rem /\ sync' = FALSE
+  /\ UNCHANGED <<items, total, arb, phase, avail, hd, ks, midrw, got>>
+  /\ last' = [a |-> a, r |-> r]
+
+LReply(c) == [b |-> [ok |-> FALSE, v |-> <<>>, rem |-> Left - c, pan |-> 0],
+              x |-> [i \in 1..Len(ks) |-> [ok |-> FALSE, v |-> <<>>, pan |-> 0]]]
 
 UStep(a, r) ==
   /\ phase \in {"r", "end"} /\ ~Known(a)
@@ -301,6 +320,8 @@ Next ==
   \/ NRW < MaxRW /\ \E a \in RWActs : Step(a)
   \/ \E a \in OpenActs : Step(a)
   \/ phase = "r" /\ \E a \in RdActs : Step(a)
+  \/ phase = "r" /\ ~AtEnd /\ \E a \in RdActs :
+        \E c \in {0, Min2(Pfx, HeadIt.n), HeadIt.n} : LStep(a, LReply(c))
   \/ phase \in {"r", "end"} /\ \E a \in RdActs : \E r \in UReplies(a) : UStep(a, r)
 Spec == Init /\ [][Next]_allvars
 
